@@ -97,7 +97,7 @@ Definition wbody_eqb (a b : wbody) : bool :=
 Definition wtag_opt_eqb (a b : option wtag) : bool := option_eqb wtag_eqb a b.
 
 (* contract on Shapely: same keyword and same nested coordinate tuples as the library's to_wkt
-   (the Z marker alone may be added: C20_gpd_geometry_roundtrip_z); a multipoint is the one exception (finding D41) *)
+   (the Z marker alone may be added: C20_gpd_geometry_roundtrip_z); for a multipoint Shapely 2 writes one parenthesised coordinate per point (read back since repair D41) *)
 Definition shapely_contract (orc : oracle) (g : geom) (w : wkt) : bool :=
   let mine := write orc None g in
   wtag_opt_eqb (w_tag w) (w_tag mine) && w_upper w &&
